@@ -496,6 +496,19 @@ def call_value_method(ex, o, name, args, kwargs, node):
         if name == "insert" and o.concrete and isinstance(args[0], int):
             o.items.insert(args[0], args[1])
             return None
+        if name == "sort" and o.concrete and not args and not kwargs and len(o.items) <= 3 and all(V.is_num(x) and not isinstance(x, bool) for x in o.items):
+            # in-place ascending sort of a list of at most three numbers: a min/max network (no path split)
+            its = [V.to_z3(x, True) if (V.is_real(x) or any(V.is_real(y) for y in o.items)) else V.to_z3(x) for x in o.items]
+            mn = lambda a, b: z3.If(a <= b, a, b)   # noqa
+            mx = lambda a, b: z3.If(a <= b, b, a)   # noqa
+            if len(its) == 2:
+                its = [mn(its[0], its[1]), mx(its[0], its[1])]
+            elif len(its) == 3:
+                a, b, c = its
+                lo, hi = mn(mn(a, b), c), mx(mx(a, b), c)
+                its = [lo, a + b + c - lo - hi, hi]
+            o.items[:] = its
+            return None
         if name == "fill":
             if not o.concrete:
                 o.arr = z3.K(z3.IntSort(), V.to_z3(args[0], o.arr.sort().range() == z3.RealSort()))
